@@ -217,7 +217,7 @@ def statement_coverage(funcs, lines):
         for l in miss:
             missed.append({'function': name, 'line': l, 'text': linecache.getline(fname, l).strip()[:100]})
     return {'statements_in_encoded_functions': total, 'executed_on_some_explored_path': total - len(missed),
-            'per_function_executed_of_total': per_fn, 'never_executed': missed[:120], 'never_executed_count': len(missed)}
+            'per_function_executed_of_total': per_fn, 'never_executed': missed[:400], 'never_executed_count': len(missed)}
 
 
 def explore_config(args):
